@@ -35,6 +35,11 @@ CLAIMED = {
          "sync.Pool is replaced (overlay) by a pool whose Get answers the explorer enumerates. Phase A: BFS over canonical pool states reached by histories of 12 calls x 3 collect modes (depth 2, bounded non-LIFO answers). Phase A': closure - from the pool holding one copy of every distinct free-object class, every event is run with recycled objects injected, new classes are added, repeated to a fixpoint (reached). Phase B: each of 10 probes in every BFS state under LIFO plus bounded deviations. Phase C: each probe on the pre-filled union pool with every Get answered by fresh or any reachable dirty object (<=2 dirty objects per call). The probe's complete canonical observation (every issue field, aliasing between issues, $first, destination, ctx.Get values) must equal the probe on cleared pools.",
          "Pool shim answers are exactly sync.Pool's contract; union-of-reachable-objects argument in DESIGN 3.5/4 C07; free-object class = object fields rendered to depth 4; cross-pool aliasing of prototypes is not preserved.",
          "DESIGN.md section 4 C07"),
+
+ "C06": ("exhaustive enumeration of (well-formed schema+destination target, input position, dynamic-type zoo value | front end raw text) on the real code under recover(), with every field visit order",
+         "33 well-formed targets (primitives, structs, slices, pointers, nestings, Custom, Preprocess, field names of 1/31/32/33/64 bytes) receive each of ~115 zoo values (typed/untyped nils, maps and named maps of every element type, structs with unexported/embedded fields, pointer chains, arrays, NaN/Inf/extremes, json.Number, invalid UTF-8, channels, funcs...) at every input position (top level, field, element, nested field), plus every pair of zoo values at two positions (thorough), plus ~100 JSON texts (every truncation of a document, 10001-deep nesting, {} / [] / null / scalars / duplicate keys / BOM), ~22 forms and queries, environment variants and method x Content-Type combinations through zjson, zhttp and zenv against 4 schemas. Any panic is a violation, classified by innermost zog frame and message class.",
+         "All targets are well-formed so a panic is attributable to data. Cyclic inputs are outside the statement.",
+         "DESIGN.md section 4 C06"),
 }
 NOT_YET = "check not built yet in this round (work in progress; see DESIGN.md section 4)"
 def main():
